@@ -57,6 +57,17 @@ pub fn gen_term(r: &mut Rng, o: &ProgOpts, vars: &[&str], depth: u32) -> String 
         };
     }
     let nops = if o.regular { 4 } else { 8 };
+    if !o.regular && r.chance(1, 10) {
+        // the same operand twice: two occurrences of a multi-valued term take their values
+        // independently ((1..2)*(1..2) has the values 1, 2, 4)
+        let t = if r.chance(2, 3) {
+            format!("({})..({})", r.range(-1, 2), r.range(1, 3))
+        } else {
+            gen_term(r, o, vars, depth - 1)
+        };
+        let op = ["+", "-", "*", "/", "\\"][r.upto(5)];
+        return format!("({t}){op}({t})");
+    }
     match r.below(nops) {
         0 => format!("-({})", gen_term(r, o, vars, depth - 1)),
         1 => format!("({})+({})", gen_term(r, o, vars, depth - 1), gen_term(r, o, vars, depth - 1)),
